@@ -87,7 +87,9 @@ def run(ctx):
     ctx.rule("R5-grammar", "writer token sequences ⊆ reader token sequences (normalised; look-ahead reads and zero-iteration artefacts removed)")
     ctx.rule("R5-payload", "the set of self fields the encoder reads equals the set of fields the decoder fills from parsed input (derived fields listed)")
     ctx.rule("R5-field", "field identity: per integer position, the field written is among the fields the value read at that position is stored into")
+    ctx.rule("R5-mask", "bit preservation: every flag bit passed to MessageFlags::set / contains anywhere in the crate survives the masks applied by MessageFlags::encode and MessageFlags::parse_bytes (constant-folded u8 masks)")
     f = ctx.facts()
+    check_flag_masks(ctx, f)
     for name, w, r in PAIRS:
         for p in (w, r):
             if p not in f.fns:
@@ -189,3 +191,105 @@ def payload_fields(f, w, r):
 def norm_fields(s):
     """tuple-variant fields are '0','1','2' on both sides; struct fields by name. `bits`/len-carrying reads are ignored."""
     return frozenset(x for x in s)
+
+
+
+MF = "automerge::sync::MessageFlags"
+
+
+def const_u8(b, op, depth=0):
+    """constant-fold an operand to an int when it is a literal / named constant or Not / BitAnd / BitOr / BitXor of such"""
+    if "k" in op:
+        v = op["k"].get("v")
+        try:
+            return int(v) & 0xFF if v is not None else None
+        except ValueError:
+            return None
+    pl = op.get("c") or op.get("m")
+    if pl is None or pl["p"] or depth > 8:
+        return None
+    d = b.single_def(pl["l"])
+    if d is None or d[1] == "t":
+        return None
+    rv = d[2]["rv"]
+    if rv["k"] in ("Use", "Cast"):
+        return const_u8(b, rv["o"][0], depth + 1)
+    if rv["k"] == "Un" and rv["op"] == "Not":
+        v = const_u8(b, rv["o"][0], depth + 1)
+        return None if v is None else (~v) & 0xFF
+    if rv["k"] == "Bin" and rv["op"] in ("BitAnd", "BitOr", "BitXor"):
+        x, y = const_u8(b, rv["o"][0], depth + 1), const_u8(b, rv["o"][1], depth + 1)
+        if x is None or y is None:
+            return None
+        return {"BitAnd": x & y, "BitOr": x | y, "BitXor": x ^ y}[rv["op"]]
+    return None
+
+
+def kept_bits(b, op, acc=None, depth=0):
+    """over-approximation of the bit positions at which a non-constant input can pass unchanged into `op` (0xFF when unknown);
+    `acc` is an accumulator place (local, proj tuple) whose old value does not count as input"""
+    if const_u8(b, op) is not None:
+        return 0
+    pl = op.get("c") or op.get("m")
+    if pl is None:
+        return 0xFF
+    if acc is not None and (pl["l"], tuple(pl["p"])) == acc:
+        return 0
+    if pl["p"] or depth > 12:
+        return 0xFF
+    d = b.single_def(pl["l"])
+    if d is None or d[1] == "t":
+        return 0xFF
+    return kept_bits_rv(b, d[2]["rv"], acc, depth + 1)
+
+
+def kept_bits_rv(b, rv, acc=None, depth=0):
+    if rv["k"] in ("Use", "Cast"):
+        return kept_bits(b, rv["o"][0], acc, depth)
+    if rv["k"] == "Bin" and rv["op"] == "BitAnd":
+        x, y = rv["o"]
+        cx, cy = const_u8(b, x), const_u8(b, y)
+        if cy is not None:
+            return kept_bits(b, x, acc, depth) & cy
+        if cx is not None:
+            return kept_bits(b, y, acc, depth) & cx
+        return kept_bits(b, x, acc, depth) | kept_bits(b, y, acc, depth)
+    if rv["k"] == "Bin" and rv["op"] in ("BitOr", "BitXor"):
+        return kept_bits(b, rv["o"][0], acc, depth) | kept_bits(b, rv["o"][1], acc, depth)
+    return 0xFF
+
+
+def check_flag_masks(ctx, f):
+    # the flag bits in use: constants handed to set() / contains()
+    used = {}
+    for p, r in sorted(f.fns.items()):
+        if r["ckey"] != ("automerge", "lib"):
+            continue
+        for bi, t in f.calls(r):
+            if callee(t) in (MF + "::set", MF + "::contains") and len(t["args"]) == 2:
+                v = const_u8(cfg.body(r), t["args"][1])
+                if v is not None:
+                    used.setdefault(v, []).append(t["sp"])
+    ctx.floor("distinct constant flags passed to MessageFlags::set / contains", len(used), 3)
+    need = 0
+    for v in used:
+        need |= v
+    pb = ctx.body(MF + "::parse_bytes")
+    stores = [(bi, st) for bi, blk in enumerate(pb.blocks) for st in blk["st"] if st["d"]["p"] == [".0"] and util.base_ty(pb.local_ty(st["d"]["l"])) == MF and st["rv"]["k"] != "Use"]
+    ctx.floor("stores into MessageFlags.0 in parse_bytes", len(stores), 1)
+    kept = 0
+    for bi, st in stores:
+        kept |= kept_bits_rv(pb, st["rv"], acc=(st["d"]["l"], (".0",)))
+    ok = kept & need == need
+    ctx.ob("R5-mask", "MessageFlags::parse_bytes|flag bits in use survive the mask", ok, pb.rec["sp"], "kept 0x%02x covers flags in use 0x%02x" % (kept, need) if ok else
+           "parse_bytes keeps only bits 0x%02x of a bitfield byte but flags 0x%02x are set / tested in the crate (%s): a message carrying such a flag decodes to a different value" %
+           (kept, need, ", ".join("0x%02x at %s" % (v, used[v][0]) for v in sorted(used) if v & ~kept)))
+    eb = ctx.body(MF + "::encode")
+    pushes = [(bi, t) for bi, t in eb.calls() if (norm_fn(t.get("fn")) or "").endswith("Vec::push") and eb.provenance(t["args"][1]).depends_on_param(1)]
+    ctx.floor("pushes of the flag byte in MessageFlags::encode", len(pushes), 1)
+    kept = 0
+    for bi, t in pushes:
+        kept |= kept_bits(eb, t["args"][1])
+    ok = kept & need == need
+    ctx.ob("R5-mask", "MessageFlags::encode|flag bits in use are written", ok, eb.rec["sp"], "written 0x%02x covers flags in use 0x%02x" % (kept, need) if ok else
+           "encode writes only bits 0x%02x of the flags but 0x%02x are in use" % (kept, need))
